@@ -4,12 +4,9 @@ import (
 	"fmt"
 	"go/ast"
 
-	"go/constant"
 	"go/types"
 	"lwverif/internal/absint"
-	"sort"
 	"strings"
-
 )
 
 func init() {
@@ -52,149 +49,6 @@ func (c *Ctx) sawOnce(cat, item string) {
 	}
 }
 
-type regEntry struct {
-	Uplink bool
-	CID    int64
-	Size   int64
-	Type   string
-	Pos    string
-}
-
-// macRegistry reads the macPayloadRegistry literal: (direction, CID) -> (size, payload type).
-func macRegistry(c *Ctx) ([]regEntry, error) {
-	pk := c.Prog.Pkg("")
-	info := pk.TypesInfo
-	var lit *ast.CompositeLit
-	for _, f := range pk.Syntax {
-		for _, d := range f.Decls {
-			gd, ok := d.(*ast.GenDecl)
-			if !ok {
-				continue
-			}
-			for _, sp := range gd.Specs {
-				vs, ok := sp.(*ast.ValueSpec)
-				if !ok {
-					continue
-				}
-				for i, n := range vs.Names {
-					if n.Name == "macPayloadRegistry" && i < len(vs.Values) {
-						lit, _ = vs.Values[i].(*ast.CompositeLit)
-					}
-				}
-			}
-		}
-	}
-	if lit == nil {
-		return nil, fmt.Errorf("macPayloadRegistry literal not found")
-	}
-	var out []regEntry
-	for _, e := range lit.Elts {
-		kv, ok := e.(*ast.KeyValueExpr)
-		if !ok {
-			return nil, fmt.Errorf("registry: unexpected element")
-		}
-		kt := info.Types[kv.Key]
-		if kt.Value == nil || kt.Value.Kind() != constant.Bool {
-			return nil, fmt.Errorf("registry: direction key is not a constant")
-		}
-		up := constant.BoolVal(kt.Value)
-		inner, ok := kv.Value.(*ast.CompositeLit)
-		if !ok {
-			return nil, fmt.Errorf("registry: inner map is not a literal")
-		}
-		for _, ie := range inner.Elts {
-			ikv, ok := ie.(*ast.KeyValueExpr)
-			if !ok {
-				return nil, fmt.Errorf("registry: unexpected inner element")
-			}
-			ct := info.Types[ikv.Key]
-			if ct.Value == nil {
-				return nil, fmt.Errorf("registry: CID key is not a constant")
-			}
-			cid, _ := constant.Int64Val(ct.Value)
-			val, ok := ikv.Value.(*ast.CompositeLit)
-			if !ok || len(val.Elts) != 2 {
-				return nil, fmt.Errorf("registry: entry for CID %d is not {size, func}", cid)
-			}
-			var sizeE, fnE ast.Expr = val.Elts[0], val.Elts[1]
-			for _, el := range val.Elts {
-				if k, ok := el.(*ast.KeyValueExpr); ok {
-					switch k.Key.(*ast.Ident).Name {
-					case "size":
-						sizeE = k.Value
-					case "payload":
-						fnE = k.Value
-					}
-				}
-			}
-			st := info.Types[sizeE]
-			if st.Value == nil {
-				return nil, fmt.Errorf("registry: size of CID %d is not a constant", cid)
-			}
-			size, _ := constant.Int64Val(st.Value)
-			tname := ""
-			if fl, ok := fnE.(*ast.FuncLit); ok && len(fl.Body.List) == 1 {
-				if rs, ok := fl.Body.List[0].(*ast.ReturnStmt); ok && len(rs.Results) == 1 {
-					if pt, ok := info.TypeOf(rs.Results[0]).(*types.Pointer); ok {
-						if n, ok := pt.Elem().(*types.Named); ok {
-							tname = n.Obj().Name()
-						}
-					}
-				}
-			}
-			if tname == "" {
-				return nil, fmt.Errorf("registry: constructor of CID %d is not `func() … { return &T{} }`", cid)
-			}
-			out = append(out, regEntry{up, cid, size, tname, c.Prog.Rel(ikv.Pos())})
-		}
-	}
-	sort.Slice(out, func(i, j int) bool {
-		if out[i].Uplink != out[j].Uplink {
-			return !out[i].Uplink
-		}
-		return out[i].CID < out[j].CID
-	})
-	return out, nil
-}
-
-func registryRule(c *Ctx, rule string) {
-	r := c.Run
-	reg, err := macRegistry(c)
-	if err != nil {
-		r.Unknown(rule, "macPayloadRegistry", "", "registry literal readable", err.Error())
-		return
-	}
-	want := map[string]ws{}
-	for _, s := range macSpecs {
-		want[fmt.Sprintf("%s/%#02x", s.Dir, s.CID)] = s
-	}
-	seen := map[string]bool{}
-	for _, e := range reg {
-		dir := "down"
-		if e.Uplink {
-			dir = "up"
-		}
-		k := fmt.Sprintf("%s/%#02x", dir, e.CID)
-		seen[k] = true
-		s, ok := want[k]
-		if !ok {
-			r.Bad(rule, "registry/"+k, e.Pos, "no payload registered (the specification defines no payload for this CID and direction)", fmt.Sprintf("%s size %d", e.Type, e.Size))
-			continue
-		}
-		r.Check(e.Type == s.Type && int(e.Size) == s.Size, rule, "registry/"+k, e.Pos, fmt.Sprintf("%s, %d bytes", s.Type, s.Size), fmt.Sprintf("%s, %d bytes", e.Type, e.Size), true)
-	}
-	var ks []string
-	for k := range want {
-		ks = append(ks, k)
-	}
-	sort.Strings(ks)
-	for _, k := range ks {
-		if !seen[k] {
-			r.Bad(rule, "registry/"+k, "", fmt.Sprintf("%s registered", want[k].Type), "missing from macPayloadRegistry")
-		}
-	}
-}
-
 func checkC06(c *Ctx) {
 	r := c.Run
 	r.Exhaustive = true
@@ -203,7 +57,7 @@ func checkC06(c *Ctx) {
 	r.Assumptions = []string{"append is modelled as allocating (aliasing is the subject of C10)", "enum-typed fields (MType, Major, DwellTime) are restricted to their declared domain"}
 	r.Rule("R1.enc=spec", "every wire bit produced by the encoder equals the oracle's function of the field bits, for all accepted values; reserved bits are 0")
 	r.Rule("R2.dec=spec", "every decoded field equals the oracle's reading of the wire bits for all byte values; reserved (RFU) bits do not influence any field")
-	r.Rule("R3.registry", "macPayloadRegistry (direction, CID) -> (type, size) equals the specification's list, none missing or extra")
+	r.Rule("R3.registry", "the MAC payload registry, read through its accessor GetMACPayloadAndSize (E1, package initialisers evaluated): each of the 2 x 256 (direction, CID) pairs resolves to the specification's payload type and size, or to an error where the specification defines no payload")
 	r.Rule("R4.size", "encoded length equals the oracle size")
 	all := append(append([]ws{}, macSpecs...), frameSpecs...)
 	for _, s := range all {
@@ -213,7 +67,7 @@ func checkC06(c *Ctx) {
 		emitFacts(c, res, "R2.dec=spec", "dec.layout", "dec.total")
 		emitFacts(c, res, "R4.size", "enc.size")
 	}
-	registryRule(c, "R3.registry")
+	registryLookupE1(c, "R3.registry", false)
 }
 
 func checkC07(c *Ctx) {
@@ -229,7 +83,7 @@ func checkC07(c *Ctx) {
 	r.Rule("R8.no-input-write", "no decoder writes through its input slice (commands of one stream share the buffer: a write would corrupt the following command)")
 	r.Rule("R7.port0", "marshalPayload refuses a *MACCommand unless FPort is set and 0")
 	r.Rule("R9.registry-lookup", "GetMACPayloadAndSize resolves each of the 2 x 256 (direction, CID) pairs to the specified payload type and size or to an error; registering a proprietary CID with a size changes that pair only")
-	registryLookupE1(c, "R9.registry-lookup")
+	registryLookupE1(c, "R9.registry-lookup", true)
 	c07Sequences(c, "R10.sequence")
 	// the stream decoder and the registry accessor read the registry and keep no state of their own (a size table
 	// built on first use would miss later registrations)
@@ -247,7 +101,6 @@ func checkC07(c *Ctx) {
 		emitFacts(c, res, "R1.accept", "enc.accept<=spec", "enc.spec<=accept", "enc.accept=spec", "undecided")
 		emitFacts(c, res, "R2.inverse", "inv")
 	}
-	registryRule(c, "R4.size")
 	c07Port0(c)
 	ruleRegistryWriters(c, "R6.registry-writers")
 	ruleNoInputWrite(c, "R8.no-input-write", nil)
@@ -419,7 +272,7 @@ func truthTable(info *types.Info, e ast.Expr, atoms []string) map[string]bool {
 // payload for it. Then, for each direction and each proprietary CID 128..255, RegisterProprietaryMACCommand(dir, cid, 3)
 // is interpreted on a fresh state and the lookups that could be disturbed are repeated: the registered pair has size 3,
 // the same CID in the other direction, the CID with the top bit cleared and every standard command are unchanged.
-func registryLookupE1(c *Ctx, rule string) {
+func registryLookupE1(c *Ctx, rule string, registration bool) {
 	r := c.Run
 	want := map[string]ws{}
 	for _, s := range macSpecs {
@@ -490,6 +343,42 @@ func registryLookupE1(c *Ctx, rule string) {
 			} else {
 				r.Check(got.err, rule, "lookup/"+k, "", "no payload (an error): the specification defines none for this CID and direction", fmt.Sprintf("type %s size %d error=%v", got.typ, got.size, got.err), cid < 0x30)
 			}
+		}
+	}
+	if !registration {
+		return
+	}
+	// a standard CID (< 128) cannot be registered: the call is refused and the pair keeps its meaning
+	for _, up := range []bool{true, false} {
+		for cid := 0; cid < 128; cid++ {
+			key := fmt.Sprintf("register/%s/%#02x", dirName(up), cid)
+			in := absint.NewInterp(c.Prog)
+			d := in.D
+			upN := absint.False
+			if up {
+				upN = absint.True
+			}
+			var out []absint.Value
+			if err := in.Try(func() {
+				out = in.CallFunc("", "RegisterProprietaryMACCommand", d.Bool(upN), d.Const(int64(cid), 8, false), d.Const(3, 64, true))
+			}); err != nil {
+				r.Unknown(rule, key, "", "RegisterProprietaryMACCommand inside the interpreter's subset", err.Error())
+				continue
+			}
+			ev, ok := out[0].(*absint.ErrVal)
+			if !ok || ev.NonNil != absint.True {
+				r.Bad(rule, key, "", "a CID < 128 is refused", "accepted: "+in.Show(out[0]))
+				continue
+			}
+			g := lookup(in, up, cid)
+			k := fmt.Sprintf("%s/%#02x", dirName(up), cid)
+			same := false
+			if s, ok := want[k]; ok {
+				same = g.bad == "" && !g.err && g.typ == s.Type && int(g.size) == s.Size
+			} else {
+				same = g.bad == "" && g.err
+			}
+			r.Check(same, rule, key, "", "refused, and the pair resolves as before", fmt.Sprintf("refused; afterwards type %s size %d error=%v %s", g.typ, g.size, g.err, g.bad), cid < 0x30)
 		}
 	}
 	// registration of a proprietary command
